@@ -42,6 +42,36 @@ def crafted():
                     out.append((pr, [(Fraction(0), w, (), Fraction(4)), (Fraction(t_off), off, (), None)]))
                     out.append((pr, [(Fraction(1), w, (), Fraction(4)), (Fraction(0), off, (), None), (Fraction(t_off), on, (), None)]))
     out += crafted_simultaneous()
+    out += crafted_nondyadic()
+    return out
+
+
+def crafted_nondyadic():
+    """durations, start times and release times that are rationals with no finite binary expansion (1/3, 7/10, 1/10, 22/7): every constraint of
+    the STN plan has to be kept as an exact rational"""
+    from unified_planning.shortcuts import Problem, Fluent, BoolType, DurativeAction, InstantaneousAction, StartTiming, EndTiming, GlobalStartTiming, Not
+    out = []
+    for da, db, gap in ((Fraction(1, 3), Fraction(7, 10), Fraction(1, 10)), (Fraction(22, 7), Fraction(1, 3), Fraction(2, 3)), (Fraction(1, 10), Fraction(1, 10), Fraction(1, 1000))):
+        pr = Problem(f"nondyadic_{da.numerator}_{da.denominator}_{db.numerator}_{db.denominator}")
+        x, y, k = (Fluent(n, BoolType()) for n in ("x", "y", "k"))
+        pr.add_fluent(x, default_initial_value=False)
+        pr.add_fluent(y, default_initial_value=False)
+        pr.add_fluent(k, default_initial_value=False)
+        pr.add_timed_effect(GlobalStartTiming(gap), k, True)
+        a = DurativeAction("a")
+        a.set_fixed_duration(da)
+        a.add_condition(StartTiming(), k)
+        a.add_effect(EndTiming(), x, True)
+        b = DurativeAction("b")
+        b.set_fixed_duration(db)
+        b.add_condition(StartTiming(), x)
+        b.add_effect(EndTiming(), y, True)
+        pr.add_action(a)
+        pr.add_action(b)
+        pr.add_goal(y)
+        sa = gap + Fraction(1, 7)
+        sb = sa + da + Fraction(1, 3)
+        out.append((pr, [(sa, a, (), da), (sb, b, (), db)]))
     return out
 
 
